@@ -120,9 +120,9 @@ def axiom_audit(names, mods):
     os.unlink(f)
     res = {}
     txt = p.stdout + p.stderr
-    for m in re.finditer(r"'([^']+)' depends on axioms: \[([^\]]*)\]", txt, flags=re.S):
+    for m in re.finditer(r"'(\S+)' depends on axioms: \[([^\]]*)\]", txt, flags=re.S):
         res[m.group(1)] = [a.strip() for a in m.group(2).replace("\n", " ").split(",") if a.strip()]
-    for m in re.finditer(r"'([^']+)' does not depend on any axioms", txt):
+    for m in re.finditer(r"'(\S+)' does not depend on any axioms", txt):
         res[m.group(1)] = []
     return res, txt
 
